@@ -233,7 +233,7 @@ func init() {
 		Technique: "bounded-exhaustive enumeration of operator chains + property-based testing (rapid) against an independent precedence-climbing parenthesiser over the documented table; AST-shape and value oracles",
 		Rule: "operator sequences over the 27 binary operators, operands with optional stacked unary prefixes (not, -, +), optional trailing / nested / inner conditional: (a) every chain of 1..K binary operators (K=3 quick, 4 thorough) plain, and for chains < K with one unary prefix at each operand position and a trailing conditional; (b) random chains of 5-12 operators. " +
 			"Oracles: (1) shape - stick's AST for {{ e }} with GroupExpr erased equals the tree of an independent precedence-climbing parser over the documented table; (2) value - {{ e }} and its fully parenthesised form render identically under 3 valuations, and adding the model's parentheses never changes the AST. " +
-			"Non-trivial: >= 2 operators, or an operator plus a unary prefix or conditional (more than one grouping exists); distinct by token sequence.",
+			"Non-trivial: >= 2 operators, or an operator plus a unary prefix or conditional (more than one grouping exists); distinct by token sequence. Trailing forms also include else-if ladders of 3 and 4 conditionals, conditionals in both branches of a conditional, and operators inside the rungs of a ladder.",
 		Assumptions: []string{"the operator table (precedences 10..200, ** right-associative, not 50, unary +/- 500, conditional loosest and right-nested) is copied from the documentation as the specification"},
 	}
 	judgeShape := func(cs *c04Case, it sb.Item, itParen sb.Item) *Fail {
